@@ -91,6 +91,25 @@ func ctxProvenance(fn *ssa.Function, v ssa.Value) string {
 						return walk(p)
 					}
 				}
+				// a context-typed field of a per-call state object: a conduit for the caller's
+				// context if every writer of the field, anywhere in the module, stores the context
+				// parameter of the function it is in into an object that function has just made
+				if fa, ok := x.X.(*ssa.FieldAddr); ok {
+					if f := structField(fa.X.Type(), fa.Field); f != nil && isContextType(f.Type()) {
+						sts := fieldStores[f]
+						okAll := len(sts) > 0
+						for _, st := range sts {
+							sfa := st.Addr.(*ssa.FieldAddr)
+							al, isAl := sfa.X.(*ssa.Alloc)
+							if !isAl || al.Parent() != st.Parent() || ctxProvenance(st.Parent(), st.Val) != "param" {
+								okAll = false
+							}
+						}
+						if okAll {
+							return "param"
+						}
+					}
+				}
 				if al, ok := x.X.(*ssa.Alloc); ok {
 					if sv := singleStore(al); sv != nil {
 						return walk(sv)
@@ -310,7 +329,16 @@ func checkC13(c *Ctx, r *Report) {
 			if n := calleeName(cc); n != "" && (cc.IsInvoke() || cc.StaticCallee() != nil) {
 				return n
 			}
-			if mc, ok := p.Upto(oc.Seg).ResolveIn(oc.Ctx, cc.Value).(*ssa.MakeClosure); ok {
+			rv := p.Upto(oc.Seg).ResolveIn(oc.Ctx, cc.Value)
+			for i := 0; i < 4; i++ {
+				// a method value converted to a named function type and called through a parameter
+				if ct, isCT := rv.(*ssa.ChangeType); isCT {
+					rv = p.Upto(oc.Seg).ResolveIn(oc.Ctx, ct.X)
+					continue
+				}
+				break
+			}
+			if mc, ok := rv.(*ssa.MakeClosure); ok {
 				if f, ok := mc.Fn.(*ssa.Function); ok {
 					return strings.TrimSuffix(f.String(), "$bound")
 				}
@@ -493,7 +521,12 @@ func checkC13(c *Ctx, r *Report) {
 							if strings.HasPrefix(n, "context.") {
 								continue
 							}
-							r.Bad(c.FnName(fn)+"|"+shortName(n)+"(ctx)", in.Pos(), "a context is passed by a function that has no context parameter: "+ctxProvenance(fn, a))
+							// a method of a per-call state object passes on the context that object carries
+							if prov := ctxProvenance(fn, a); prov == "param" {
+								r.OK(c.FnName(fn)+"|"+shortName(n)+"(ctx)", in.Pos(), "the caller's context, carried by the call's state object")
+							} else {
+								r.Bad(c.FnName(fn)+"|"+shortName(n)+"(ctx)", in.Pos(), "a context is passed by a function that has no context parameter: "+prov)
+							}
 						}
 					}
 				}
